@@ -18,7 +18,7 @@ import os
 import subprocess
 import sys
 
-from lib.framework import Check
+from lib.framework import Check, TimeLimit
 from harness import c12_engine as E
 from harness import c12_ops as O
 from gen import c12_sites
@@ -157,12 +157,20 @@ class C12(Check):
     def run(self, ctx):
         self.pool = concurrent.futures.ThreadPoolExecutor(max_workers=min(12, (os.cpu_count() or 4)))
         try:
-            self.corpus(ctx)
-            self.corr_engine(ctx)
-            self.calibrate(ctx)
-            self.corr_history(ctx)
-            self.oracle_fixed(ctx)
-            self.oracle_history(ctx)
+            failed = []
+            # the oracle phases come first in the report but every phase runs: a phase that cannot run (worker died on
+            # an exception of the implementation, say) is a broken correspondence, not the end of the search
+            for phase in (self.corpus, self.corr_engine, self.calibrate, self.corr_history, self.oracle_fixed,
+                          self.oracle_history):
+                try:
+                    phase(ctx)
+                except TimeLimit:
+                    raise
+                except Exception as e:      # noqa: B902
+                    failed.append(phase.__name__)
+                    ctx.disagree('phase %s could not run' % phase.__name__, {'phase': phase.__name__}, repr(e)[-600:], 'runs')
+            if failed:
+                ctx.notes['phases_failed'] = failed
         finally:
             self.pool.shutdown(wait=False)
 
@@ -177,7 +185,14 @@ class C12(Check):
                 case = E.case_from_line(item['line'])
                 self.engine_cases(ctx, [case], 'corpus')
             elif item['kind'] == 'history':
-                self.check_history(ctx, item['ops'], 'corpus:' + os.path.basename(path))
+                ops = O.add_recs(item['ops'], self.recs())
+                self.check_history(ctx, ops, 'corpus:' + os.path.basename(path))
+                if all(O.model_step(op) for op in ops if op['op'] != 'battery'):
+                    mops = [op for op in ops if op['op'] != 'battery']
+                    base = self.base_profiles()
+                    res = run_worker({'mode': 'history', 'ops': mops})
+                    m = ctx.driver([self.hist_line(mops, len(base))])[0] if ctx.model_ok else None
+                    self.compare_history(ctx, mops, res, m, base)
         ctx.notes['corpus_cases'] = n
 
     # -- engine correspondence ----------------------------------------------------------------------------
